@@ -3,9 +3,14 @@ import PsyVerif.Gen.FortranOps
 import PsyVerif.Lemmas.ExprIOMain
 /-! # C02 — Written expressions keep the operation order of the PSyIR tree
 
-Model: `PsyVerif/Model/ExprIO.lean`.  `render true` is the writer WITH `fixes/C02-writer-parens.patch`
-applied (mode: **fixed**); `render false` is the pinned writer, kept for the kernel-checked
-counterexamples below.  `P`/`parse` is the Fortran 2008 expression grammar R701–R722; parentheses are
+Model: `PsyVerif/Model/ExprIO.lean`.  `render .narrow` is the writer WITH
+`fixes/C02-writer-parens-narrow.patch` applied (mode: **fixed, narrow**) — the target of the theorems
+and of the correspondence check.  `render .pinned` is the unfixed writer and `render .wide` the wider,
+not applied rule (`fixes/C02-writer-parens-wide.notapplied.patch`); both are kept for kernel-checked
+witnesses, `wide` also as the proof vehicle (`render_narrow_eq_wide`).  What the narrow patch cannot
+repair without editing existing tests — a `+`/`-` sign in front of `*` `/`, a signed literal after
+`*` `/` — is the decidable class `exposed` (known finding C02-sign-under-mul), excluded by the side
+condition `exposed .top e = false`.  `P`/`parse` is the Fortran 2008 expression grammar R701–R722; parentheses are
 dropped as `_parenthesis_handler` does.
 
 Quantification: all trees of unbounded depth.  What is proved for ALL trees of the
@@ -59,14 +64,27 @@ def exRel : Expr := .bin .eq (.bin .lt va vb) vc
 /-- Full statement (all constructs of the model, fixed writer): whatever the writer accepts is
 written as a sentence of the grammar and reads back as `norm e`; with canonical literals as `e`. -/
 def C02_statement : Prop :=
-  ∀ e ne, wf .expr e = true → norm e = some ne → ParsesTo (render true .top e) ne
+  ∀ e ne, wf .expr e = true → norm e = some ne → ParsesTo (render .narrow .top e) ne
+
+/-- The full statement is FALSE of the narrow-fixed writer: `(-a)*b` is written `-a * b`, which the
+grammar reads as `-(a*b)`. -/
+theorem C02_statement_counterexample : ¬ C02_statement := by
+  intro h
+  obtain ⟨f0, hf⟩ := h exLead exLead (by decide) (by decide)
+  have h1 := hf (max f0 200) (Nat.le_max_left _ _)
+  have h2 : P 200 (.expr 0) (render .narrow .top exLead) = some (.un .minus (.bin .mul va vb), []) := by
+    decide
+  have h3 := P_mono_le h2 (Nat.le_max_right f0 200)
+  rw [h3] at h1
+  exact absurd h1 (by decide)
 
 /-- **Round trip, fixed writer, operator fragment, unbounded depth.**  Proved by induction with the
 follow-set strengthening `Good` (Lemmas/ExprIORules.lean): at every position the writer's
 parenthesisation tests leave a node bare only if its grammar level is at least the level the
 position requires (`need_le_lvl`). -/
 theorem C02_roundtrip_partial (e ne : Expr) (hf : opFrag e = true) (hw : wf .expr e = true)
-    (hn : norm e = some ne) : ParsesTo (render true .top e) ne := by
+    (hx : exposed .top e = false) (hn : norm e = some ne) : ParsesTo (render .narrow .top e) ne := by
+  rw [render_narrow_eq_wide e .top hx]
   have g := good_render e hf hw ne hn .top trivial
   have := g.1 0 [] (Nat.zero_le _) trivial
   simp only [List.append_nil] at this
@@ -74,32 +92,70 @@ theorem C02_roundtrip_partial (e ne : Expr) (hf : opFrag e = true) (hw : wf .exp
 
 /-- With canonical literals the re-read tree is structurally the original tree. -/
 theorem C02_roundtrip_exact_partial (e : Expr) (hf : opFrag e = true) (hw : wf .expr e = true)
-    (hc : litsCanonical e = true) : ParsesTo (render true .top e) e :=
-  C02_roundtrip_partial e e hf hw (norm_of_canonical e hc)
+    (hx : exposed .top e = false) (hc : litsCanonical e = true) : ParsesTo (render .narrow .top e) e :=
+  C02_roundtrip_partial e e hf hw hx (norm_of_canonical e hc)
 
 /-- Standard conformance, as far as proved: the written text of every accepted, readable tree of
 the fragment is a sentence of the Fortran 2008 expression grammar modelled by `P`. -/
 theorem C02_standard_partial (e ne : Expr) (hf : opFrag e = true) (hw : wf .expr e = true)
-    (hn : norm e = some ne) : ∃ e', ParsesTo (render true .top e) e' :=
-  ⟨ne, C02_roundtrip_partial e ne hf hw hn⟩
+    (hx : exposed .top e = false) (hn : norm e = some ne) : ∃ e', ParsesTo (render .narrow .top e) e' :=
+  ⟨ne, C02_roundtrip_partial e ne hf hw hx hn⟩
 
 /-- The same holds inside any operand position, e.g. under a further operator: grouping is kept. -/
 theorem C02_roundtrip_in_context (e ne : Expr) (c : Ctx) (hc : c.ok) (hf : opFrag e = true)
-    (hw : wf .expr e = true) (hn : norm e = some ne) (R : List Tok) (hR : Follow (need c) R) :
-    ∃ f0, ∀ f, f0 ≤ f → P f (.expr (need c)) (render true c e ++ R) = some (ne, R) :=
-  ((good_render e hf hw ne hn c hc).1 (need c) R
+    (hw : wf .expr e = true) (hx : exposed c e = false) (hn : norm e = some ne) (R : List Tok)
+    (hR : Follow (need c) R) :
+    ∃ f0, ∀ f, f0 ≤ f → P f (.expr (need c)) (render .narrow c e ++ R) = some (ne, R) := by
+  rw [render_narrow_eq_wide e c hx]
+  exact ((good_render e hf hw ne hn c hc).1 (need c) R
     (need_le_lvl c hc e (wf_not_rem hw)) hR).all_fuel
 
+/-- The wide (not applied) rule needs no side condition: it is the full repair on the fragment. -/
+theorem C02_roundtrip_wide_partial (e ne : Expr) (hf : opFrag e = true) (hw : wf .expr e = true)
+    (hn : norm e = some ne) : ParsesTo (render .wide .top e) ne := by
+  have g := good_render e hf hw ne hn .top trivial
+  have := g.1 0 [] (Nat.zero_le _) trivial
+  simp only [List.append_nil] at this
+  exact this.all_fuel
+
+/-- The excluded class is exactly "a `+`/`-` sign (unary operation or signed literal) directly
+below `*` or `/`" at a position where the narrow patch keeps the pinned output. -/
+theorem C02_exposed_class (lit : Bool) (u : UnOp) (c : Ctx)
+    (h : parenSignM .narrow lit u c ≠ parenSignM .wide lit u c) :
+    u ≠ .not ∧ ∃ b right eqR, c.par = .bin b right eqR ∧ (b = .mul ∨ b = .div) :=
+  exposed_only_under_mul lit u c h
+
 /-! non-vacuity and sanity evaluations (the concrete `parse` with its fixed fuel) -/
-example : opFrag exUnary = true ∧ wf .expr exUnary = true ∧ litsCanonical exUnary = true := by decide
+def exGp : Expr := .bin .add va (.bin .mul (.un .minus vb) vc)          -- a + (-b)*c
+def exLitMul : Expr := .bin .mul va (.lit (.real .minus 7 true false .undef))   -- a * Literal("-1.0")
+example : opFrag exPow = true ∧ wf .expr exPow = true ∧ exposed .top exPow = false ∧
+    litsCanonical exPow = true := by decide
+example : opFrag exGp = true ∧ wf .expr exGp = true ∧ exposed .top exGp = false ∧
+    litsCanonical exGp = true := by decide
+example : exposed .top exUnary = true ∧ exposed .top exLead = true ∧ exposed .top exLitMul = true := by decide
 example : opFrag exNegLit = true ∧ wf .expr exNegLit = true ∧ norm exNegLit ≠ none := by decide
-example : parse (render true .top exUnary) = some exUnary := by decide
-example : parse (render true .top exPow) = some exPow := by decide
-example : parse (render true .top exLead) = some exLead := by decide
-example : parse (render true .top exRel) = some exRel := by decide
-example : parse (render true .top exNegLit) = norm exNegLit := by decide
-example : noBadAdj (render true .top exUnary) = true ∧ noBadAdj (render true .top exNegLit) = true := by
+example : parse (render .narrow .top exGp) = some exGp := by decide
+example : parse (render .wide .top exUnary) = some exUnary := by decide
+example : parse (render .wide .top exLead) = some exLead := by decide
+example : parse (render .narrow .top exPow) = some exPow := by decide
+example : parse (render .narrow .top exRel) = some exRel := by decide
+example : parse (render .narrow .top exNegLit) = norm exNegLit := by decide
+example : noBadAdj (render .narrow .top exGp) = true ∧ noBadAdj (render .narrow .top exNegLit) = true := by
   decide
+
+/-! ### the narrow-fixed writer: kernel-checked witnesses of the remaining class (C02-sign-under-mul) -/
+
+/-- `(-a)*b` is still written `-a * b`, read as `-(a*b)`: valid Fortran, same value, other tree. -/
+theorem narrow_leading_sign_counterexample :
+    parse (render .narrow .top exLead) = some (.un .minus (.bin .mul va vb)) ∧
+    exposed .top exLead = true := by decide
+
+/-- `a * Literal("-1.0")` is still written `a * -1.0` and `a + ((-b)*c)*d` still `a + -b * c * d`:
+not sentences of the grammar. -/
+theorem narrow_sign_after_operator_counterexample :
+    parse (render .narrow .top exLitMul) = none ∧ noBadAdj (render .narrow .top exLitMul) = false ∧
+    parse (render .narrow .top exUnary) = none ∧ exposed .top exLitMul = true ∧
+    exposed .top exUnary = true := by decide
 
 /-- The writer refuses `REM` (no Fortran operator) and character values holding both quote kinds. -/
 theorem C02_refuses :
@@ -109,21 +165,21 @@ theorem C02_refuses :
 
 /-- `(a**b)**c` is written `a ** b ** c`, which is `a**(b**c)`. -/
 theorem pinned_pow_left_nested_counterexample :
-    parse (render false .top exPow) = some (.bin .pow va (.bin .pow vb vc)) ∧
-    parse (render false .top exPow) ≠ some exPow := by decide
+    parse (render .pinned .top exPow) = some (.bin .pow va (.bin .pow vb vc)) ∧
+    parse (render .pinned .top exPow) ≠ some exPow := by decide
 
 /-- `a + ((-b)*c)*d` is written `a + -b * c * d`: two adjacent operators, not a sentence. -/
 theorem pinned_unary_counterexample :
-    parse (render false .top exUnary) = none ∧ noBadAdj (render false .top exUnary) = false := by decide
+    parse (render .pinned .top exUnary) = none ∧ noBadAdj (render .pinned .top exUnary) = false := by decide
 
 /-- `a + Literal("-1.0")` is written `a + -1.0`. -/
 theorem pinned_signed_literal_counterexample :
-    parse (render false .top exNegLit) = none ∧ noBadAdj (render false .top exNegLit) = false := by decide
+    parse (render .pinned .top exNegLit) = none ∧ noBadAdj (render .pinned .top exNegLit) = false := by decide
 
 /-- `(-a)*b` is written `-a * b`, which is `-(a*b)`; `(a<b)==c` is written `a < b == c` (not a sentence). -/
 theorem pinned_leading_sign_and_relational_counterexample :
-    parse (render false .top exLead) = some (.un .minus (.bin .mul va vb)) ∧
-    parse (render false .top exRel) = none := by decide
+    parse (render .pinned .top exLead) = some (.un .minus (.bin .mul va vb)) ∧
+    parse (render .pinned .top exRel) = none := by decide
 
 /-! ### literals the reader cannot give back unchanged (known findings, not repaired by the patch) -/
 
@@ -140,7 +196,7 @@ theorem C02_literal_precision_counterexample :
 /-- A character value containing `''` or `""` is written but not read back (CodeBlock). -/
 theorem C02_doubled_quote_counterexample :
     wf .expr (.lit (.char 1 .doubled .undef)) = true ∧ norm (.lit (.char 1 .doubled .undef)) = none ∧
-    parse (render true .top (.lit (.char 1 .doubled .undef))) = none := by decide
+    parse (render .narrow .top (.lit (.char 1 .doubled .undef))) = none := by decide
 
 /-- Exactly which literals are canonical. -/
 theorem C02_canonical_literals (l : Lit) : l.canonical = true ↔
